@@ -236,7 +236,7 @@ def check_site(d, M, mode="abs"):
                 stem = r["file"].rpartition(".")[0]
                 if [x["file"].rpartition(".")[0] for x in dd["recipes"]].count(stem) > 1:
                     continue
-                mr = compile_markdown(gen_site.recipe_text(r))
+                mr = compile_markdown(r["raw"] if r.get("raw") is not None else gen_site.recipe_text(r))
                 pages = [(None, "/categories/%s%s.html" % (sub, stem))] if r["servings"] is None else [(n, "/serves%d/%s%s.html" % (n, sub, stem)) for n in range(1, M + 1)]
                 for n, path in pages:
                     if path not in got:
@@ -297,6 +297,12 @@ def fixed_cases():
                subdirs=[dict(name="a", readme=rd("Lunch"), recipes=[r("x.md", "X", 2)], subdirs=[], assets=[]),
                         dict(name="b", readme=rd("Meal plan week 1"), recipes=[r("y.md", "Y", None)], subdirs=[], assets=[]),
                         dict(name="c", readme=rd("hot dish"), recipes=[r("z.md", "Z", 1)], subdirs=[], assets=[])]), 2
+    # a readme whose title ends like a serving phrase with a count above M (a readme is not a recipe: no error), and a recipe with whole numbers
+    # too large for a float (shown exactly on every page, the one at the stated count included)
+    big = dict(file="big.md", title="Big", servings=2, links=[],
+               raw="# Big for 2\n\nCount {18014398509481985} grains.\n\n    9007199254740993 g sand\n    sift(sand, {36028797018963969} times)\n")
+    yield dict(name="root", readme=rd("Party food for 20"), recipes=[r("dip.md", "Dip", 2), big], assets=[],
+               subdirs=[dict(name="more", readme=rd("Buffet serves 12"), recipes=[r("x.md", "X", None)], subdirs=[], assets=[])]), 3
     # recipes that point at one another and at a local file, in another directory too
     potato = dict(file="potato.md", title="Potato soup", servings=2, links=[("Lleek", "leek.md", ("recipe", "soups/leek.md")), ("Ipic", "pic.png", ("asset", "soups/pic.png"))])
     leek = dict(file="leek.md", title="Leek soup", servings=3, links=[("Lbread", "../bread.md", ("recipe", "bread.md")), ("Lroot", "/soups/potato.md", ("recipe", "soups/potato.md"))])
